@@ -35,7 +35,8 @@ ASSUMPTIONS = [
 ]
 
 RAW_KINDS = ["touch_same", "del_recreate", "rm_output", "clobber_output", "rmtree_recreate",
-             "rename_dir_roundtrip", "new_subdir_populate", "del_then_restore_later", "chmod_flip"]
+             "rename_dir_roundtrip", "new_subdir_populate", "del_then_restore_later", "chmod_flip",
+             "populate_missing_base"]
 
 
 def _masks(seed):
@@ -185,6 +186,22 @@ class Session:
             if os.path.lexists(os.path.join(root, tmp)):
                 return []
             return [("rename", d, tmp), ("sleep", raw["gap"]), ("rename", tmp, d)]
+        if kind == "populate_missing_base":
+            # the base directory of a pattern (and possibly its parent) does not exist yet: it
+            # is watched "pending"; create it level by level and put a first match into it
+            missing = [g for g in proj["globs"] if not os.path.isdir(os.path.join(root, g["dir"]))]
+            if missing:
+                g = missing[pick % len(missing)]
+                ops = []
+                cur = ""
+                for part in g["dir"].split("/"):
+                    cur = f"{cur}/{part}" if cur else part
+                    if not os.path.isdir(os.path.join(root, cur)):
+                        ops.append(("mkdir", cur))
+                        ops.append(("sleep", raw["gap"]))
+                ops.append(("raw_write", f"{g['dir']}/i{900 + pick % 90}.dat", f"first {pick}\n"))
+                return ops
+            return []
         if kind == "new_subdir_populate":
             deep = [g for g in proj["globs"] if g.get("deep")]
             if deep:
